@@ -336,7 +336,7 @@ theorem walk_node (R : RParser) (D : ToDom) : ∀ (k : Node) (w : WState) (base 
       obtain ⟨tag, pw⟩ := p
       rw [her] at hrest
       simp only [Bool.and_eq_true, Bool.or_eq_true, Bool.not_eq_true'] at hrest
-      obtain ⟨⟨⟨hko, hlo⟩, hflat⟩, hlist⟩ := hrest
+      obtain ⟨⟨⟨⟨hko, hlo⟩, hflat⟩, hlist⟩, _⟩ := hrest
       rw [Schema.checkNode] at hck
       simp only [Bool.and_eq_true] at hck
       obtain ⟨⟨hvc, _⟩, hckk⟩ := hck
@@ -386,7 +386,7 @@ theorem walk_node (R : RParser) (D : ToDom) : ∀ (k : Node) (w : WState) (base 
         have hflat' : kids.all Node.isLeaf = true := by
           rcases hflat with h | h
           · simp [isWrapper, hd] at h
-          · exact h
+          · exact h.1
         have hnk : normKids R.P (lowerName name) [elemDom R name2 sattrs2 (domOfList R D kids)] =
             [elemDom R name2 sattrs2 (domOfList R D kids)] :=
           normKids_noList _ _ _ (fun hlc => by rw [← ht, hlt] at hlc; cases hlc)
@@ -502,7 +502,7 @@ theorem parse_canonical (R : RParser) (D : ToDom) (doc : Node) (h : rtOk R D doc
   | leaf t a m => cases hdoc
   | elem t a ms kids =>
     simp only [Bool.and_eq_true, beq_iff_eq, Bool.not_eq_true', List.isEmpty_iff] at hdoc
-    obtain ⟨⟨⟨⟨⟨ht, hms⟩, hnl⟩, hat⟩, hko⟩, hlo⟩ := hdoc
+    obtain ⟨⟨⟨⟨⟨⟨ht, hms⟩, hnl⟩, hat⟩, hko⟩, hlo⟩, _⟩ := hdoc
     subst ht hms
     simp only [noMarks, Bool.and_eq_true] at hnm
     rw [Schema.checkNode] at hck
